@@ -64,6 +64,7 @@ fn c13_nodes_v4_lengths() {
     assert!(nodes4(&blob[..1]).is_err(), "C13: 1-byte nodes blob accepted");
     assert!(nodes4(&blob[..25]).is_err(), "C13: 25-byte nodes blob accepted");
     assert!(nodes4(&blob[..27]).is_err(), "C13: 27-byte nodes blob accepted");
+    assert!(nodes4(&blob[..38]).is_err(), "C13: 38-byte nodes blob (an IPv6 entry) accepted as IPv4 nodes");
     assert!(nodes4(&blob[..51]).is_err(), "C13: 51-byte nodes blob accepted");
     assert!(nodes4(&blob[..53]).is_err(), "C13: 53-byte nodes blob accepted");
     let one = nodes4(&blob[..26]);
@@ -89,6 +90,7 @@ fn c13_nodes_v6_lengths() {
     assert!(matches!(nodes6(&blob[..0]), Ok(v) if v.is_empty()), "C13: empty nodes6 blob not decoded as empty list");
     assert!(nodes6(&blob[..26]).is_err(), "C13: 26-byte nodes6 blob accepted");
     assert!(nodes6(&blob[..37]).is_err(), "C13: 37-byte nodes6 blob accepted");
+    assert!(nodes6(&blob[..52]).is_err(), "C13: 52-byte nodes6 blob (two IPv4 entries) accepted as IPv6 nodes");
     assert!(nodes6(&blob[..39]).is_err(), "C13: 39-byte nodes6 blob accepted");
     assert!(nodes6(&blob[..75]).is_err(), "C13: 75-byte nodes6 blob accepted");
     assert!(nodes6(&blob[..77]).is_err(), "C13: 77-byte nodes6 blob accepted");
